@@ -138,6 +138,26 @@ def check(F, R, tier):
         under = [a for a in somes if f_.edge_dominates(b, arm, a.b)]
         R.ob('ONLY-UNDER', 'ONLY-UNDER::%s::%s::response-returned-only-if-ids-match' % (fnkey(f_), flav), bool(somes) and len(under) == len(somes), '%d of %d `Some(response)` results lie on the ids-equal arm' % (len(under), len(somes)), f_.term_site(b).where, f_)
     R.floor('PendingResponse::receive siblings', len(sib), 3)
+    # ---- a received request chunk is either handed out (ActiveRequest owns it and releases it on drop) or released at once (F17b)
+    for f_ in [x for x in F.find_fns(r'^iceoryx2::port::server::Server::<.*>::receive$') if x.kind != 'closure']:
+        rcv = f_.calls(r'Server::<.*>::receive_impl$')
+        own = f_.calls(r'Server::<.*>::create_active_request$') + f_.calls(r'Receiver::<.*>::release_offset$')
+        flav = 'slice' if ', [' in f_.id or '<Service, [' in f_.id else 'sized'
+        if not rcv:
+            R.ob('PAIR', 'PAIR::%s::%s::received-chunk-owned-or-released' % (fnkey(f_), flav), False, 'anchor-missing: receive_impl call', '%s:%s' % (f_.file, f_.line), f_)
+            continue
+        # from the Some(chunk) arm of the receive result no path reaches the next receive_impl / a return without passing an owner
+        bad = None
+        for b in range(len(f_.blocks)):
+            si = f_.switch_info(b)
+            if si and 'discr_of' in si:
+                p_ = f_.prov_place(si['discr_of'])
+                if p_.root[0] == 'call' and p_.root[1].key() == rcv[0].key() and 'as:Continue' in p_.path or (p_.root[0] == 'call' and (p_.root[1].callee or '').endswith('::branch') and any(k_ == 'as:Continue' for k_ in p_.path)):
+                    for lab, tgt in lib.arm_blocks(f_, b, lambda l: l == 'Some', F):
+                        pth = f_.exists_path(core.Site(f_, tgt, -1, ['arm']), rcv + f_.ret_sites(), own)
+                        if pth is not None:
+                            bad = pth
+        R.ob('PAIR', 'PAIR::%s::%s::received-chunk-owned-or-released' % (fnkey(f_), flav), bad is None, 'from the Some(chunk) arm of receive_impl() every path to the next receive_impl() / a return passes create_active_request() (the ActiveRequest releases on drop) or release_offset()%s: a discarded request must give its chunk back, otherwise the expired connection keeps a phantom borrow' % ('' if bad is None else ' -- path without owner %s' % bad), rcv[0].where, f_)
     # ---- responses are delivered to one connection/channel only
     n = 0
     for f2 in F.fn_list:
